@@ -190,6 +190,13 @@ func appendBodyFixedSize(r network.Reader, dst []byte, n int) ([]byte, error) {
 }
 
 func readBodyIdentity(r network.Reader, maxBodySize int, dst []byte) ([]byte, error) {
+	return readBodyUntilClose(r, maxBodySize, dst, false)
+}
+
+// readBodyUntilClose reads a body that ends where the connection ends. With
+// failOnTimeout a read that times out is an error (the peer has not closed, the body is
+// not complete); without, whatever has arrived so far is returned.
+func readBodyUntilClose(r network.Reader, maxBodySize int, dst []byte, failOnTimeout bool) ([]byte, error) {
 	dst = dst[:cap(dst)]
 	if len(dst) == 0 {
 		dst = make([]byte, 1024)
@@ -201,6 +208,9 @@ func readBodyIdentity(r network.Reader, maxBodySize int, dst []byte) ([]byte, er
 		if nn == 0 {
 			_, err := r.Peek(1)
 			if err != nil {
+				if te, ok := err.(interface{ Timeout() bool }); ok && failOnTimeout && te.Timeout() {
+					return dst[:offset], err
+				}
 				return dst[:offset], nil
 			}
 			nn = r.Len()
@@ -243,7 +253,7 @@ func ReadBody(r network.Reader, contentLength, maxBodySize int, dst []byte) ([]b
 	if contentLength == -1 {
 		return readBodyChunked(r, maxBodySize, dst)
 	}
-	return readBodyIdentity(r, maxBodySize, dst)
+	return readBodyUntilClose(r, maxBodySize, dst, true)
 }
 
 func LimitedReaderSize(r io.Reader) int64 {
